@@ -16,6 +16,7 @@ import (
 
 	"github.com/drand/drand/v2/common"
 	"github.com/drand/drand/v2/common/log"
+	"github.com/drand/drand/v2/internal/chain"
 	"github.com/drand/drand/v2/internal/chain/beacon"
 	"github.com/drand/drand/v2/internal/chain/memdb"
 	"github.com/drand/drand/v2/zzverif/emit"
@@ -42,6 +43,7 @@ type event struct {
 	auto bool   // Add: the consumer returns immediately (keeps reading)
 	k    int    // Release: consumer instance
 	rm   bool   // Release: the callback calls RemoveCallback(its id) before returning (send error path of SyncChain)
+	ctx  int    // Put: 0 = live context, 1 = cancelled between the commit and the dispatch, 2 = cancelled before the call
 }
 
 func (e event) coq() string {
@@ -73,6 +75,7 @@ type consumer struct {
 }
 
 type world struct {
+	inner *giveUpStore
 	cbs   beacon.CallbackStore
 	cons  []*consumer
 	calls []chan struct{} // one per event that is a call; closed when the call returns
@@ -91,8 +94,30 @@ func failOnce(rep *emit.Report, class, what string, in interface{}) {
 
 func quiet() log.Logger { return log.New(nil, log.PanicLevel, false) }
 
+// giveUpStore sits below the callback store: when giveUp is set it is called right after the next
+// successful write, i.e. the caller of Put gives up (its context is cancelled) while the commit is
+// in flight.
+type giveUpStore struct {
+	chain.Store
+	mu     sync.Mutex
+	giveUp context.CancelFunc
+}
+
+func (g *giveUpStore) Put(ctx context.Context, b *common.Beacon) error {
+	err := g.Store.Put(ctx, b)
+	g.mu.Lock()
+	giveUp := g.giveUp
+	g.giveUp = nil
+	g.mu.Unlock()
+	if giveUp != nil && err == nil {
+		giveUp()
+	}
+	return err
+}
+
 func newWorld() *world {
-	return &world{cbs: beacon.NewCallbackStore(quiet(), memdb.NewStore(4000))}
+	inner := &giveUpStore{Store: memdb.NewStore(4000)}
+	return &world{cbs: beacon.NewCallbackStore(quiet(), inner), inner: inner}
 }
 
 func cbName(cid int) string { return fmt.Sprintf("cb-%d", cid) }
@@ -149,8 +174,20 @@ func (w *world) run(script []event, expectBlock map[int]bool) result {
 		switch e.kind {
 		case evPut:
 			r := e.r
+			pctx := context.Background()
+			if e.ctx != 0 {
+				var cancel context.CancelFunc
+				pctx, cancel = context.WithCancel(pctx)
+				if e.ctx == 2 {
+					cancel() // memdb ignores the context: the beacon is stored all the same
+				} else {
+					w.inner.mu.Lock()
+					w.inner.giveUp = cancel
+					w.inner.mu.Unlock()
+				}
+			}
 			go func() {
-				_ = w.cbs.Put(context.Background(), &common.Beacon{Round: r, Signature: []byte{byte(r), byte(r >> 8), 1}})
+				_ = w.cbs.Put(pctx, &common.Beacon{Round: r, Signature: []byte{byte(r), byte(r >> 8), 1}})
 				close(done)
 			}()
 		case evAdd:
@@ -331,6 +368,14 @@ func witnessScenarios() []scenario {
 	s7 = append(s7, puts(1, queueN)...)
 	s7 = append(s7, event{kind: evAdd, cid: 1, auto: true}, event{kind: evRemove, cid: 2})
 	out = append(out, scenario{name: "queue-beacons-per-stalled-consumer", script: s7})
+	// Puts whose caller gives up (context cancelled between the commit and the dispatch, or before the
+	// call) with two readers and a gated consumer registered: the beacon is in the store, so it must
+	// reach every registered callback
+	s8 := []event{{kind: evAdd, cid: 1, auto: true}, {kind: evAdd, cid: 2, auto: true}, {kind: evAdd, cid: 3}}
+	s8 = append(s8, event{kind: evPut, r: 1}, event{kind: evPut, r: 2, ctx: 1}, event{kind: evPut, r: 3},
+		event{kind: evPut, r: 4, ctx: 2}, event{kind: evPut, r: 5}, event{kind: evRelease, k: 2}, event{kind: evRelease, k: 2},
+		event{kind: evPut, r: 6, ctx: 1}, event{kind: evRelease, k: 2}, event{kind: evPut, r: 7})
+	out = append(out, scenario{name: "put-context-cancelled-with-registered-consumers", script: s8})
 	return out
 }
 
@@ -356,7 +401,11 @@ func randomScenario(rng *rand.Rand) scenario {
 				s = append(s, event{kind: evPut, r: 0}) // round 0 is stored but not dispatched
 				break
 			}
-			s = append(s, event{kind: evPut, r: uint64(round)})
+			pe := event{kind: evPut, r: uint64(round)}
+			if x := rng.Intn(7); x < 2 {
+				pe.ctx = 1 + x
+			}
+			s = append(s, pe)
 			round++
 			nput++
 			for _, k := range reg {
@@ -483,7 +532,7 @@ func Run(outDir string, seed int64, tier string) error {
 		keys = append(keys, k)
 	}
 	sort.Strings(keys)
-	rep.Rule = "real NewCallbackStore over memdb with harness-gated consumers: witness scripts (stalled consumer with queue+2 Puts, with a second reader, slow consumer, disconnect after/before the queue fills, same-id reconnect on a full queue, exactly queue beacons) and random scripts of Put/AddCallback/RemoveCallback/release (reading and gated consumers, replacements, self-removal) that never fill a queue; distinct = distinct events; an evaluation = one event; a call not returned after " + Deadline.String() + " counts as blocked"
+	rep.Rule = "real NewCallbackStore over memdb with harness-gated consumers: witness scripts (Puts whose context is cancelled between the commit and the dispatch or before the call, stalled consumer with queue+2 Puts, with a second reader, slow consumer, disconnect after/before the queue fills, same-id reconnect on a full queue, exactly queue beacons) and random scripts of Put/AddCallback/RemoveCallback/release (reading and gated consumers, replacements, self-removal) that never fill a queue; distinct = distinct events; an evaluation = one event; a call not returned after " + Deadline.String() + " counts as blocked"
 	_ = strings.Join
 	if err := rep.Shard(outDir, "cases_cbstore", []string{"From DV Require Import Model.CbStore Corr.CbStoreCorr."}, "bcase", "mismatches", cases, descr, 40); err != nil {
 		return err
